@@ -213,6 +213,25 @@ def jwk_faults(jwk: dict, rng: Rng):
                 if not (mask >> i) & 1:
                     del d[c]
             yield ("partial-crt", "only CRT members %r kept" % [c for i, c in enumerate(CRT) if (mask >> i) & 1], d)
+        # well-formed members that contradict each other: a private exponent of another key, CRT values exchanged or shifted
+        def _i(name, d_):
+            return int.from_bytes(b64.dec(d_[name]), "big")
+
+        def _e(v):
+            return b64.enc(v.to_bytes((v.bit_length() + 7) // 8 or 1, "big"))
+        for how in ("d-foreign", "dp-dq-swapped", "qi-is-dp", "d-plus-2", "p-q-swapped-only"):
+            d = copy.deepcopy(jwk)
+            if how == "d-foreign":
+                d["d"] = _e(_i("d", jwk) ^ (1 << 200))
+            elif how == "dp-dq-swapped":
+                d["dp"], d["dq"] = jwk["dq"], jwk["dp"]
+            elif how == "qi-is-dp":
+                d["qi"] = jwk["dp"]
+            elif how == "d-plus-2":
+                d["d"] = _e(_i("d", jwk) + 2)
+            else:
+                d["p"], d["q"] = jwk["q"], jwk["p"]        # dp, dq, qi now belong to the other factor
+            yield ("inconsistent-private", "RSA private members contradict each other (%s)" % how, d)
         # the private exponent stripped, factors / CRT members left behind: not a public key, not a private key
         for mask in (31, 1, 3, 16, 21):
             d = copy.deepcopy(jwk)
